@@ -182,7 +182,7 @@ class CircularRecord(SeqRecord):
         newseq = self.seq[-index:] + self.seq[:-index]
         newfeats = []
         newletan = {
-            k: v[index:] + v[:index] for k, v in six.iteritems(self.letter_annotations)
+            k: v[-index:] + v[:-index] for k, v in six.iteritems(self.letter_annotations)
         }
 
         for feature in self.features:
